@@ -179,9 +179,30 @@ class Impl:
                                                capacity_function=functools.partial(_const_cap, h.cap))
             self.o.impl.name = {id(c): C.fmt_name(k) for k, c in self.o.impl.space._cells.items()}
         self.c = None
+        self.d = None
         self.trace = []
 
+    def sides(self):
+        return {k: v for k, v in (("o", self.o), ("c", self.c), ("d", self.d)) if v is not None}
+
     def line(self, w):
+        if w[0] == "copy2":
+            src = {"o": self.o, "c": self.c}.get(w[2])
+            if src is None:
+                return "err NoCopy"
+            if src.impl.space is None:
+                return "err NoSpace"
+            try:
+                self.d = Side(clone_impl(src.impl, w[1]))
+                problems = identity_problems(src, self.d)
+                for name, other in (("o", self.o), ("c", self.c)):
+                    if other is not None and other is not src:
+                        problems += [f"(vs side {name}) {p}" for p in identity_problems(other, self.d)]
+                self.trace.append(("copied", w[1] + " (second copy)", src.snapshot(), self.d.snapshot(), problems))
+            except Exception as e:  # noqa: BLE001
+                self.trace.append(("unusable", "copy2 " + w[1], f"{type(e).__name__}: {e}"))
+                return "err Crash"
+            return "ok"
         if w[0] == "copy":
             if self.o.impl.space is None:
                 return "err NoSpace"
@@ -193,19 +214,22 @@ class Impl:
                 return "err Crash"
             return "ok"
         side = "o"
-        if w[0] in ("o", "c"):
+        if w[0] in ("o", "c", "d"):
             side, w = w[0], w[1:]
-        if side == "c" and self.c is None:
+        me = {"o": self.o, "c": self.c, "d": self.d}[side]
+        if me is None:
             return "err NoCopy"
-        me = self.o if side == "o" else self.c
-        other = self.c if side == "o" else self.o
+        others = {k: v for k, v in self.sides().items() if k != side}
         try:
-            before = other.snapshot() if other is not None else None
+            before = {k: v.snapshot() for k, v in others.items()}
             out = me.line(w)
-            if other is not None:
-                after = other.snapshot()
-                if after != before:
-                    self.trace.append(("leak", side, " ".join(w), before, after))
+            for k, v in others.items():
+                after = v.snapshot()
+                if after != before[k]:
+                    self.trace.append(("leak", side, " ".join(w) + f" (seen on side {k})", before[k], after))
+            if others:
+                self.trace.append(("state", side, " ".join(w), out, me.snapshot()[0] if me.impl.space is not None else None,
+                                   me.impl.h.kind))
         except Exception as e:  # noqa: BLE001
             if self.c is None:
                 raise  # before any copy exists this is the cells harness' business
@@ -223,6 +247,40 @@ def run_impl(sc):
     return obs
 
 
+def dump_inconsistencies(dump):
+    """C06's clauses on one observation dump (the views of one space must agree with each other)"""
+    _, d = C.parse_dump("x | " + dump)
+    bad = []
+    cell_of = {}
+    for t in d.get("ag", []):
+        a, _, c = t.partition(":")
+        cell_of[a] = None if c == "-" else c
+    occ = {}
+    for t in d.get("occ", []):
+        c, _, ags = t.partition(":")
+        occ[c] = [x for x in ags.split(".") if x != ""]
+    listed = {a for ags in occ.values() for a in ags}
+    reg = set(d.get("reg", []))
+    for a, c in cell_of.items():
+        if a in reg and c is not None and a not in occ.get(c, []):
+            bad.append(f"agent {a} reports cell {c}, which does not list it")
+    for c, ags in occ.items():
+        for a in ags:
+            if a in reg and cell_of.get(a) != c:
+                bad.append(f"cell {c} lists agent {a}, which reports {cell_of.get(a)}")
+    if sorted(d.get("agents", []), key=str) != sorted(listed, key=str):
+        bad.append(f"space.agents is {d.get('agents')} but the cells list {sorted(listed)}")
+    if set(d.get("empty", [])) & set(occ):
+        bad.append(f"cells {sorted(set(d.get('empty', [])) & set(occ))} are occupied and report is_empty")
+    if set(d.get("empties", [])) != set(d.get("empty", [])):
+        bad.append(f"space.empties {d.get('empties')} differs from the cells with is_empty {d.get('empty')}")
+    if d.get("layer") != ["na"] and set(d.get("layer", [])) != set(d.get("empty", [])):
+        bad.append(f"the 'empty' layer {d.get('layer')} differs from the empty cells {d.get('empty')}")
+    if d.get("pempty") != ["na"] and d.get("pempty") != d.get("layer"):
+        bad.append(f"cell.empty attributes {d.get('pempty')} differ from the 'empty' layer {d.get('layer')}")
+    return bad
+
+
 def oracle(sc, obs):
     bad = []
     for ev in sc.meta.get("trace") or []:
@@ -233,6 +291,13 @@ def oracle(sc, obs):
                 bad.append(f"faithful: the {how} copy differs from the original in its {part}")
             for p in ident:
                 bad.append(f"detached-identity: after {how}: {p}")
+        elif ev[0] == "state":
+            _, side, op, out, dump, kind = ev
+            if kind == "grid" and op.split()[:2] in (["layer", "add"], ["layer", "del"], ["layer", "fill"]) and out == "err Attr":
+                bad.append(f"copy-unusable: `{op}` on side {side} raised AttributeError on a grid (property layers must keep working on the original and on the copy)")
+            if dump is not None:
+                for p in dump_inconsistencies(dump):
+                    bad.append(f"copy-inconsistent: after `{op}` on side {side}: {p}")
         elif ev[0] == "unusable":
             bad.append(f"copy-unusable: '{ev[1]}' raised {ev[2]} (a copy must behave like a freshly built space)")
         elif ev[0] == "leak":
@@ -311,8 +376,20 @@ def generate(rng, tier, count):
                 if " new " in " " + l + " ":
                     count_side[side] += 1
             lines.append(l)
-        if tier == "thorough" and R.random() < 0.2:
-            lines.append("o " + cell_op("").strip())
+        if R.random() < 0.35:
+            # a second copy alive at the same time (of the original or of the first copy), then ops on all three
+            lines.append(f"copy2 {R.choice(['deepcopy', 'pickle'])} {R.choice(['o', 'c'])}")
+            count_side["d"] = max(count_side.values())
+            for _ in range(R.randint(3, 9)):
+                side = R.choice(["o", "c", "d", "d"])
+                n_agents = count_side[side]
+                if h.kind == "grid" and R.random() < 0.4:
+                    l = layer_op(side + " ")
+                else:
+                    l = cell_op(side + " ")
+                    if " new " in " " + l + " ":
+                        count_side[side] += 1
+                lines.append(l)
         yield core.Scenario(lines, {})
 
 
@@ -323,7 +400,7 @@ def nontrivial(sc, obs):
     has_agent = any("occ=" in o and "occ= |" not in o for o in obs[:i] if "|" in o)
     sides = {l.split()[0] for l, o in zip(sc.lines[i + 1:], obs[i + 1:]) if o.startswith("ok") and l.split()[1] in
              ("set", "moveto", "moverel", "remove", "new", "layer")}
-    return has_agent and sides == {"o", "c"}
+    return has_agent and {"o", "c"} <= sides
 
 
 def tags(sc, obs):
@@ -333,7 +410,9 @@ def tags(sc, obs):
         ws = l.split()
         if ws[0] == "copy":
             yield "copy:" + ws[1]
-        if ws[0] in ("o", "c"):
+        if ws[0] == "copy2":
+            yield "copy2:" + ws[1] + ":of-" + ws[2]
+        if ws[0] in ("o", "c", "d"):
             yield f"side-{ws[0]}:{ws[1]}" + (":" + ws[2] if ws[1] == "layer" else "") + (":" + o.split()[1] if o.startswith("err") else "")
 
 
